@@ -27,7 +27,11 @@ type fragCase struct {
 var awkward = []string{"plain", "a < b && c > d", `"quoted" 'text'`, "ünïcödé", "tab\there", "two  spaces", "${x}", "x==1 ? 'a' : 'b'", "0", "true", "-",
 	// line ends of every kind (written as character references: a parser
 	// normalises raw CR / CRLF to LF), CDATA terminator, a lone ampersand entity look-alike
-	"windows\r\nline ends\r\n  kept", "lone\rcarriage return", "unix\nline end", "]]> inside", "&amp; literally"}
+	"windows\r\nline ends\r\n  kept", "lone\rcarriage return", "unix\nline end", "]]> inside", "&amp; literally",
+	// white space that is not XML white space at the edges of a text (a
+	// no-break space pasted along with a value, an em space, NEL, LINE
+	// SEPARATOR, an ideographic space): not "whitespace-only text"
+	"\u00a0no-break spaces around\u00a0", "\u2003em space first", "next line last\u0085", "\u2028line separator\u2028", "\u3000ideographic\u3000", "\u00a0PT1M\u00a0"}
 
 // every fragment uses ids with the placeholder %N (instance number) so that a
 // fragment can occur several times; %T is an awkward text (XML-escaped).
